@@ -405,7 +405,10 @@ func (s *Shard) SearchPoints(searchRequest models.SearchRequest) ([]models.Searc
 				}
 				res, err := dec.Query(p)
 				if err != nil {
-					return nil, fmt.Errorf("could not select point data, %s: %w", p, err)
+					// The path cannot be resolved in this point, e.g. "a.b"
+					// where "a" is a number here. Like a missing property it
+					// selects nothing; it must not fail the whole search.
+					continue
 				}
 				if len(res) == 0 {
 					// Didn't find anything for this property
